@@ -999,3 +999,710 @@ class StoreRun:
                 sig.append((fid, p, n.coll.signature() if isinstance(n.coll, Coll) else "indet"))
         f = op.get("fault")
         return hashlib.sha1(repr((op["op"], f.get("kind") if f else None, sig)).encode()).hexdigest()[:12]
+
+
+# ===========================================================================
+# Producers that consume earlier collections: merge, coarsen, zoomify
+# ===========================================================================
+def _compatible(colls):
+    a = colls[0]
+    for b in colls[1:]:
+        if a.chromnames != b.chromnames or a.lengths != b.lengths:
+            return False
+        if len(a.bins) != len(b.bins) or not (a.bins.values == b.bins.values).all():
+            return False
+    return True
+
+
+def _wrap_iter_fault(cls, fault, run):
+    """F2 for merge/coarsen producers: the chunk iterator raises before
+    yielding chunk k.  Returns an undo function."""
+    orig = cls.__iter__
+    k = fault["chunk"]
+
+    def faulty(self):
+        n = 0
+        for ch in orig(self):
+            if n == k:
+                run.fired("F2")
+                raise InjectedIOError(5, "injected: input failed before chunk %d" % k)
+            n += 1
+            yield ch
+        if k >= n:
+            run.fired("F2")
+            raise InjectedIOError(5, "injected: input failed at exhaustion")
+
+    cls.__iter__ = faulty
+    return lambda: setattr(cls, "__iter__", orig)
+
+
+def _op_merge(self, op):
+    import cooler
+    from cooler._reduce import CoolerMerger
+
+    fid, path, mode = op["file"], op["path"], op.get("mode", "a")
+    fault = op.get("fault")
+    ins = []
+    for i in op["inputs"]:
+        if i["file"] not in self.fs.files:
+            raise Skip("input file missing")
+        n = self.fs.lookup(i["file"], i["path"])
+        if n is None or not isinstance(n.coll, Coll):
+            raise Skip("input missing")
+        ins.append(n.coll)
+    if any(i["file"] == fid for i in op["inputs"]) and not op.get("allow_same_file"):
+        raise Skip("merge into a file holding an input is refused by libhdf5 (bound)")
+    if fid in self.fs.files and path != "/":
+        parent = "/" + "/".join(split(path)[:-1])
+        if self.fs.canonical(fid, parent, partial=True) is None:
+            raise Skip("destination parent behind an external link")
+    columns = op.get("columns") or ["count"]
+    agg = op.get("agg") or {}
+    refuse = None
+    if len({c.symmetric for c in ins}) > 1:
+        refuse = "storage modes differ"
+    elif not _compatible(ins):
+        refuse = "bin tables differ"
+    elif any(col not in c.pixels.columns for c in ins for col in columns):
+        refuse = "column missing"
+    exp = None
+    overflow = False
+    if refuse is None:
+        dts = {col: np.result_type(*[c.pixels[col].dtype for c in ins]) for col in columns}
+        out = aggregate([c.pixels for c in ins], columns, agg)
+        if out is None:
+            out = {"bin1_id": [], "bin2_id": [], **{c: [] for c in columns}}
+        overflow = not all(fits(out[c], dts[c]) for c in columns)
+        if not overflow:
+            exp = Coll(ins[0].chromnames, ins[0].lengths, ins[0].bins, pixel_frame(out, dts),
+                       ins[0].symmetric, None, ins[0].assembly)
+    uris = [uri_of(i["path"], self.fpath(i["file"])) for i in op["inputs"]]
+    uri = uri_of(path, self.fpath(fid), op.get("slash", True))
+    kw = dict(mergebuf=op["mergebuf"], mode=mode)
+    if op.get("columns"):
+        kw["columns"] = list(op["columns"])
+    if agg:
+        kw["agg"] = dict(agg)
+    undo = None
+    if fault and fault["kind"] == "F2":
+        undo = _wrap_iter_fault(CoolerMerger, fault, self)
+    fs_old = self.fs.clone()
+    dest_before = self.fs.lookup(fid, path) if fid in self.fs.files else None
+    held_before = dest_before is not None and dest_before.kind == "group" and dest_before.coll is not None
+    self._arm_open_fault(fault)
+    self._arm_snapshots(fid)
+    try:
+        exc, tracer = self._call(lambda: cooler.merge_coolers(uri, uris, **kw), fault)
+    finally:
+        if undo:
+            undo()
+    self._finish_producer(op, "C07", exc, exp, refuse, overflow, fs_old, fid, path, mode, held_before,
+                          early_refusal=True)
+    if exc is None and exp is not None and "count" in columns:
+        # recorded total = sum of the input totals
+        want = sum(c.total("count") for c in ins) if agg.get("count", "sum") == "sum" else None
+        if want is not None:
+            try:
+                got = cooler.Cooler(uri).info.get("sum")
+                if got != want and not (isinstance(want, float) and abs(got - want) <= 1e-9 * abs(want)):
+                    self.violate("C07", "O-sum", ["merged total %r != sum of input totals %r" % (got, want)])
+            except Exception as e:
+                self.violate("C07", "O-sum", ["cannot read merged total: %s" % e])
+    return exc, tracer
+
+
+def _finish_producer(self, op, prop, exc, exp, refuse, overflow, fs_old, fid, path, mode, held_before,
+                     early_refusal):
+    """Common outcome handling for merge/coarsen: success, expected refusal,
+    overflow (must raise), injected fault."""
+    fault = op.get("fault")
+    faulted = fault is not None and fault.get("kind") != "count-lines"
+    failed = self._failed_variants(fs_old, fid, path, mode)
+    intended = exp
+    if refuse is not None:
+        if exc is None:
+            self.violate(prop, "not-refused", ["%s must be refused (%s) but succeeded" % (op["op"], refuse)])
+            self._examine_snapshots(fs_old, fid, path, mode, None, True)
+            fs_new = fs_old.clone()
+            self._place(fs_new, fid, path, self._fresh(INDET, prop), mode)
+            self._resolve([fs_new], [fid], None, None, True)
+            return
+        self.stat("refused:" + refuse)
+        self._examine_snapshots(fs_old, fid, path, mode, None, True)
+        self._resolve([fs_old] + failed if not early_refusal else [fs_old] + failed, [fid], None, None, held_before)
+        return
+    if overflow:
+        self.stat("overflow-case")
+        if exc is None:
+            self.violate(prop, "O-overflow", ["an aggregate does not fit the output dtype but no error was "
+                                              "raised (stored value silently differs from the exact aggregate)"])
+            fs_new = fs_old.clone()
+            self._place(fs_new, fid, path, self._fresh(INDET, prop), mode)
+            self._examine_snapshots(fs_old, fid, path, mode, None, True)
+            self._resolve([fs_new], [fid], None, None, True)
+            return
+        self._examine_snapshots(fs_old, fid, path, mode, None, True)
+        self._resolve(failed + [fs_old], [fid], {"kind": "F6"}, (fid, path), held_before)
+        return
+    node = self._fresh(exp, prop)
+    fs_ok = fs_old.clone()
+    self._place(fs_ok, fid, path, node, mode)
+    if not faulted:
+        if exc is not None:
+            self.violate(prop, "op-raised", ["%s raised %s: %s" % ((op["op"],) + exc)])
+            cands = failed + [fs_old]
+        else:
+            cands = [fs_ok]
+        self._examine_snapshots(fs_old, fid, path, mode, intended, held_before)
+        self._resolve(cands, [fid], None, (fid, path), held_before)
+        return
+    if exc is None:
+        if fault["kind"] == "F2":
+            self.violate("C13", "not-rejected", ["%s: injected input failure did not surface" % op["op"]])
+        cands = [fs_ok]
+    elif fault["kind"] == "F2":
+        cands = failed
+    else:
+        cands = failed + [fs_old, fs_ok]
+        if path != "/":
+            fs_abs = fs_old.clone()
+            if mode == "w" or fid not in fs_abs.files:
+                fs_abs.files[fid] = Node()
+            par, name = fs_abs.parent_and_name(fid, path)
+            if par is not None:
+                par.children.pop(name, None)
+            cands.append(fs_abs)
+        if mode == "w":
+            fs_tr = fs_old.clone()
+            fs_tr.files[fid] = Node()
+            cands.append(fs_tr)
+    self._examine_snapshots(fs_old, fid, path, mode, intended, held_before)
+    self._resolve(cands, [fid], fault, (fid, path), held_before)
+
+
+def _op_coarsen(self, op):
+    import cooler
+    from cooler._reduce import CoolerCoarsener
+
+    s = op["src"]
+    fid, path, mode = op["file"], op["path"], op.get("mode", "a")
+    fault = op.get("fault")
+    if s["file"] not in self.fs.files:
+        raise Skip("source file missing")
+    sn = self.fs.lookup(s["file"], s["path"])
+    if sn is None or not isinstance(sn.coll, Coll):
+        raise Skip("source missing")
+    same = s["file"] == fid
+    if same and mode == "w":
+        raise Skip("mode w would truncate the source")
+    if same:
+        # the destination must not be the source or contain it
+        dn = self.fs.lookup(fid, path)
+        if dn is not None and self.fs.in_subtree(fid, dn, sn):
+            raise Skip("destination holds the source")
+        if path == "/" and self.fs.files[fid] is sn:
+            raise Skip("destination is the source")
+    if fid in self.fs.files and path != "/":
+        parent = "/" + "/".join(split(path)[:-1])
+        if self.fs.canonical(fid, parent, partial=True) is None:
+            raise Skip("destination parent behind an external link")
+    src = sn.coll
+    k = int(op["factor"])
+    columns = op.get("columns") or ["count"]
+    agg = op.get("agg") or {}
+    refuse = None
+    if any(col not in src.pixels.columns for col in columns):
+        refuse = "column missing"
+    exp, ok = (None, True)
+    if refuse is None:
+        exp, ok = coarsen_model(src, k, columns, agg)
+    suri = uri_of(s["path"], self.fpath(s["file"]), s.get("slash", True))
+    uri = uri_of(path, self.fpath(fid), op.get("slash", True))
+    nproc = int(op.get("nproc", 1))
+    undo = None
+    if fault and fault["kind"] == "F2":
+        undo = _wrap_iter_fault(CoolerCoarsener, fault, self)
+    if fault and fault["kind"] == "F6":
+        target = fault["task"]
+        cnt = [0]
+
+        def hook(jobno, i):
+            n = cnt[0]
+            cnt[0] += 1
+            if n == target:
+                self.fired("F6")
+                raise (MemoryError("injected: worker out of memory") if fault.get("exc") == "MemoryError"
+                       else InjectedIOError(5, "injected: read error in worker"))
+        self.sim.hooks["task"] = hook
+    fs_old = self.fs.clone()
+    dest_before = self.fs.lookup(fid, path) if fid in self.fs.files else None
+    held_before = dest_before is not None and dest_before.kind == "group" and dest_before.coll is not None
+    self._arm_open_fault(fault)
+    self._arm_snapshots(fid)
+    if op.get("cli"):
+        from click.testing import CliRunner
+        from cooler.cli import cli
+
+        args = ["coarsen", "-k", str(k), "-c", str(op["chunksize"]), "-p", str(nproc), "-o", uri]
+        if mode == "a":
+            args.append("--append")
+        for col in (op.get("columns") or []):
+            spec = col
+            if col in agg:
+                spec += ":agg=" + agg[col]
+            args += ["--field", spec]
+        args.append(suri)
+
+        def call():
+            r = CliRunner().invoke(cli, args, catch_exceptions=False)
+            if r.exit_code != 0:
+                raise RuntimeError("cli exit %s: %s" % (r.exit_code, (r.output or "")[-200:]))
+    else:
+        kw = dict(chunksize=op["chunksize"], nproc=nproc)
+        if op.get("columns"):
+            kw["columns"] = list(op["columns"])
+        if agg:
+            kw["agg"] = dict(agg)
+        if mode != "a" or op.get("explicit_mode"):
+            kw["mode"] = mode
+
+        def call():
+            cooler.coarsen_cooler(suri, uri, k, **kw)
+    nconf0 = len(self.sim.flock_conflicts)
+    try:
+        exc, tracer = self._call(call, fault)
+    finally:
+        if undo:
+            undo()
+        self.sim.hooks.pop("task", None)
+    # O-sched: no reader/writer overlap, no deadlock, for every schedule
+    if len(self.sim.flock_conflicts) > nconf0:
+        self.violate(op.get("prop", "C08"), "O-sched-flock",
+                     ["simulated HDF5 file-lock conflict: %r" % (self.sim.flock_conflicts[nconf0],)])
+    if exc is not None and exc[0] in ("SimDeadlock", "StepLimit"):
+        self.violate(op.get("prop", "C08"), "O-sched-deadlock", ["%s: %s" % exc])
+    self.sim.deadlock = None
+    if exc is None and exp is not None and nproc > 1:
+        self.stat("pooled-coarsen-ok")
+    self._finish_producer(op, op.get("prop", "C08"), exc, exp if ok else None, refuse, not ok, fs_old, fid, path,
+                          mode, held_before, early_refusal=True)
+    return exc, tracer
+
+
+def _op_zoomify(self, op):
+    """zoomify_cooler / `cooler zoomify` into a fresh .mcool file."""
+    import cooler
+
+    fid = op["file"]
+    bases = []
+    for b in op["bases"]:
+        if b["file"] not in self.fs.files or b["file"] == fid:
+            raise Skip("base missing or inside the output file")
+        n = self.fs.lookup(b["file"], b["path"])
+        if n is None or not isinstance(n.coll, Coll):
+            raise Skip("base missing")
+        bases.append(n.coll)
+    resolutions = [int(r) for r in op["resolutions"]]
+    columns = op.get("columns") or ["count"]
+    base_res = []
+    for c in bases:
+        b, _amb = c.binsize()
+        base_res.append(1 if b is None else int(b))
+    refuse = None
+    if len(set(base_res)) != len(base_res):
+        raise Skip("two bases of one resolution")
+    for r in resolutions:
+        if not any(r % b == 0 for b in base_res):
+            refuse = "resolution %d not derivable" % r
+    if any(col not in c.pixels.columns for c in bases for col in columns):
+        raise Skip("column missing in a base")
+    # model: every base copied, every other resolution = direct coarsening of a base
+    fs_ok = self.fs.clone()
+    root = Node()
+    root.tag = "mcool"
+    resgrp = Node()
+    root.children["resolutions"] = ("h", resgrp)
+    overflow = False
+    if refuse is None:
+        for c, b in zip(bases, base_res):
+            cc = c.copy()
+            cc.pixels = cc.pixels[["bin1_id", "bin2_id"] + columns]
+            resgrp.children[str(b)] = ("h", self._fresh(cc, "C09"))
+        for r in sorted(set(resolutions)):
+            if r in base_res:
+                continue
+            # any base that divides r gives the same result for fixed-width tables;
+            # take the largest divisor, as a direct coarsening of that base
+            cand = [(b, c) for b, c in zip(base_res, bases) if r % b == 0]
+            b, c = max(cand, key=lambda t: t[0])
+            cc = c.copy()
+            cc.pixels = cc.pixels[["bin1_id", "bin2_id"] + columns]
+            exp, ok = coarsen_model(cc, r // b, columns, op.get("agg") or {})
+            overflow = overflow or not ok
+            resgrp.children[str(r)] = ("h", self._fresh(exp, "C09"))
+    fs_ok.files[fid] = root
+    uris = [uri_of(b["path"], self.fpath(b["file"])) for b in op["bases"]]
+    out = self.fpath(fid)
+    nproc = int(op.get("nproc", 1))
+    if op.get("cli"):
+        from click.testing import CliRunner
+        from cooler.cli import cli
+
+        args = ["zoomify", "-p", str(nproc), "-c", str(op["chunksize"]),
+                "-r", ",".join(str(r) for r in resolutions), "-o", out]
+        for u in uris[1:]:
+            args += ["-i", u]
+        args.append(uris[0])
+
+        def call():
+            r = CliRunner().invoke(cli, args, catch_exceptions=False)
+            if r.exit_code != 0:
+                raise RuntimeError("cli exit %s: %s" % (r.exit_code, (r.output or "")[-200:]))
+    else:
+        kw = dict(chunksize=op["chunksize"], nproc=nproc)
+        if op.get("columns"):
+            kw["columns"] = list(op["columns"])
+
+        def call():
+            cooler.zoomify_cooler(uris if len(uris) > 1 or op.get("as_list") else uris[0], out, resolutions, **kw)
+    fs_old = self.fs.clone()
+    self._arm_open_fault(None)
+    self._arm_snapshots(None)
+    nconf0 = len(self.sim.flock_conflicts)
+    exc, tracer = self._call(call, None)
+    if len(self.sim.flock_conflicts) > nconf0:
+        self.violate("C09", "O-sched-flock",
+                     ["simulated HDF5 file-lock conflict: %r" % (self.sim.flock_conflicts[nconf0],)])
+    if exc is not None and exc[0] in ("SimDeadlock", "StepLimit"):
+        self.violate("C09", "O-sched-deadlock", ["%s: %s" % exc])
+    self.sim.deadlock = None
+    if refuse is not None:
+        if exc is None:
+            self.violate("C09", "not-refused", ["zoomify must refuse: %s" % refuse])
+        self.stat("refused:zoomify")
+        # the output file is in an unspecified state after a refusal: forget it
+        fs_new = fs_old.clone()
+        fs_new.files.pop(fid, None)
+        if os.path.exists(out):
+            os.remove(out)
+        self.fs = fs_new
+        return exc, tracer
+    if overflow:
+        raise Skip("overflowing zoom level (C07/C08 cover overflow)")
+    if exc is not None:
+        self.violate("C09", "op-raised", ["zoomify raised %s: %s" % exc])
+        fs_new = fs_old.clone()
+        fs_new.files.pop(fid, None)
+        if os.path.exists(out):
+            os.remove(out)
+        self.fs = fs_new
+        return exc, tracer
+    self._resolve([fs_ok], [fid], None, None, False)
+    from cooler import fileops
+    if not fileops.is_multires_file(out):
+        self.violate("C09", "O-multires", ["is_multires_file is False for the zoomified file"])
+    if nproc > 1:
+        self.stat("pooled-zoomify-ok")
+    return exc, tracer
+
+
+StoreRun.op_merge = _op_merge
+StoreRun.op_coarsen = _op_coarsen
+StoreRun.op_zoomify = _op_zoomify
+StoreRun._finish_producer = _finish_producer
+
+
+# ===========================================================================
+# Single-cell files and renaming
+# ===========================================================================
+def _op_scool(self, op):
+    import cooler
+    from cooler import fileops
+
+    fid, mode = op["file"], op.get("mode", "w")
+    fault = op.get("fault")
+    names, lengths, bm = self._layout(op)
+    nb = len(bm)
+    dtypes = op["dtypes"]
+    cols = list(dtypes)
+    columns = None if cols == ["count"] else cols
+    dtypes_arg = None if dtypes == {"count": "int32"} else {c: _dt(d) for c, d in dtypes.items()}
+    cells = op["cells"]  # name -> {"chunks": [...], "form": "df"|"iter", "bin_extra": {...}|None}
+    order = sorted(cells)
+    stored = {}
+    for key in order:
+        stored.setdefault(key.split("/")[-1], key)
+    if len(stored) != len(order):
+        raise Skip("cell names collide after stripping the prefix")
+    base_bins = cooler_bins(names, bm)
+    per_cell_bins = any(c.get("bin_extra") for c in cells.values()) or op.get("bins_as_dict")
+    exp = {}
+    pix = {}
+    fault_cell = fault.get("cell") if fault else None
+    for key in order:
+        c = cells[key]
+        chunks = c["chunks"]
+        cat = {k: sum((ch[k] for ch in chunks), []) for k in ["bin1_id", "bin2_id"] + cols}
+        px = pixel_frame(cat, {cc: _dt(d) for cc, d in dtypes.items()})
+        extra = {k: np.asarray(v, dtype=float) for k, v in (c.get("bin_extra") or {}).items()}
+        exp[key] = Coll(names, lengths, bm, px, op["symmetric"], op.get("metadata"), op.get("assembly"), extra)
+        use = list(chunks)
+        f2_at = None
+        if fault and fault_cell == key:
+            if fault["kind"] == "F1":
+                use[fault["chunk"]] = self._inject_f1(use[fault["chunk"]], fault, nb)
+                self.fired("F1")
+            elif fault["kind"] == "F2":
+                f2_at = fault["chunk"]
+        if c.get("form", "df") == "df" and f2_at is None:
+            allc = {k: sum((ch[k] for ch in use), []) for k in ["bin1_id", "bin2_id"] + cols}
+            pix[key] = self._chunk_obj(allc, dtypes, False)
+        else:
+            pix[key] = self._iter_chunks(use, dtypes, c.get("form") == "iterdict", f2_at)
+    if per_cell_bins:
+        bins_arg = {}
+        for key in order:
+            b = base_bins.copy()
+            for k, v in (cells[key].get("bin_extra") or {}).items():
+                b[k] = np.asarray(v, dtype=float)
+            bins_arg[key] = b
+    else:
+        bins_arg = base_bins
+    fpath = self.fpath(fid)
+    kw = dict(columns=columns, dtypes=dtypes_arg, metadata=op.get("metadata"), assembly=op.get("assembly"),
+              ordered=True, symmetric_upper=op["symmetric"], mode=mode)
+    fs_old = self.fs.clone()
+    if mode == "a" and fid in self.fs.files:
+        root = self.fs.files[fid]
+        if root.coll is not None or root.dirty or "cells" in root.children or root.tag:
+            raise Skip("append a scool only to a file whose root is free")
+    self._arm_open_fault(fault if fault and fault.get("kind") == "F4" else None)
+    self._arm_snapshots(fid)
+    exc, tracer = self._call(lambda: cooler.create_scool(fpath, bins_arg, pix, **kw), fault)
+
+    def build(upto, failed_cell=None):
+        fs = fs_old.clone()
+        if mode == "w" or fid not in fs.files:
+            fs.files[fid] = Node()
+        root = fs.files[fid]
+        root.tag = "scool"
+        cg = Node()
+        root.children["cells"] = ("h", cg)
+        for key in order[:upto]:
+            cg.children[key.split("/")[-1]] = ("h", self._fresh(exp[key], "C17"))
+        if failed_cell is not None:
+            cg.children[failed_cell.split("/")[-1]] = ("h", self._fresh(None, None, dirty=True))
+        return fs
+
+    snaps = list(self._snaps)
+    self._snaps = []
+    for sfile in snaps:
+        self.stat("snapshots")
+        try:
+            os.remove(sfile)
+        except OSError:
+            pass
+    if fault is None or fault["kind"] == "count-lines":
+        if exc is not None:
+            self.violate("C17", "op-raised", ["create_scool raised %s: %s" % exc])
+            self.fs = fs_old.clone()
+            self.fs.files.pop(fid, None)
+            if os.path.exists(fpath):
+                os.remove(fpath)
+            return exc, tracer
+        fs_ok = build(len(order))
+        self._resolve([fs_ok], [fid], None, None, False)
+        self._check_scool(fid, order, exp)
+    else:
+        k = order.index(fault_cell) if fault_cell in order else 0
+        if exc is None and fault["kind"] in ("F1", "F2"):
+            self.violate("C13", "not-rejected", ["scool cell fault %r accepted without an error" % (fault,)])
+        if fault["kind"] in ("F1", "F2"):
+            cands = [build(k, fault_cell)]
+        else:
+            cands = [build(j, order[j] if j < len(order) else None) for j in range(len(order), -1, -1)]
+            cands += [build(j) for j in range(len(order), -1, -1)] + [fs_old]
+        self._resolve(cands, [fid], fault, (fid, "/cells/" + fault_cell.split("/")[-1]), False)
+        # cells < k intact and still listed: C17 under a later cell's failure
+        try:
+            with warnings.catch_warnings():
+                warnings.simplefilter("ignore")
+                got = fileops.list_coolers(fpath)
+            for key in order[:k]:
+                p = "/cells/" + key.split("/")[-1]
+                if p not in got:
+                    self.violate("C17", "O-cells-after-failure", ["cell %s no longer listed after a later "
+                                                                  "cell's creation failed" % p])
+        except Exception as e:
+            self.violate("C17", "O-cells-after-failure", ["listing raised %s" % e])
+    return exc, tracer
+
+
+def _check_scool(self, fid, order, exp):
+    from cooler import fileops
+    from cooler.util import natsorted
+
+    fpath = self.fpath(fid)
+    errs = []
+    with warnings.catch_warnings():
+        warnings.simplefilter("ignore")
+        try:
+            if not fileops.is_scool_file(fpath):
+                errs.append("is_scool_file is False")
+            want = natsorted(["/cells/" + k.split("/")[-1] for k in order])
+            got = fileops.list_scool_cells(fpath)
+            foreign = [p for p in self.fs.coolers(fid) if not p.startswith("/cells/")]
+            if foreign:
+                # a file that also holds non-cell collections: the property only
+                # speaks of the cells given; demand that each is listed
+                self.stat("scool-with-foreign-collections")
+                if not set(want) <= set(got):
+                    errs.append("list_scool_cells %r lacks cells of %r" % (got, want))
+            elif got != want:
+                errs.append("list_scool_cells %r != %r" % (got, want))
+        except Exception as e:
+            errs.append("scool recognition raised %s: %s" % (type(e).__name__, e))
+        try:
+            with h5py.File(fpath, "r") as f:
+                for k in order:
+                    g = f["/cells/" + k.split("/")[-1]]
+                    for col in ("chrom", "start", "end"):
+                        if not (g["bins"][col] == f["bins"][col]):
+                            errs.append("cell %s bins/%s is not the shared root dataset" % (k, col))
+                    if not (g["chroms"] == f["chroms"]):
+                        errs.append("cell %s chroms is not the shared root table" % k)
+                    want_extra = set(exp[k].bin_extra)
+                    got_extra = set(g["bins"].keys()) - {"chrom", "start", "end"}
+                    if want_extra != got_extra:
+                        errs.append("cell %s extra bin columns %r != %r" % (k, sorted(got_extra), sorted(want_extra)))
+        except Exception as e:
+            errs.append("shared-bins check raised %s: %s" % (type(e).__name__, e))
+    if errs:
+        self.violate("C17", "O-scool", errs)
+    else:
+        self.stat("scool-verified")
+
+
+def _op_rename(self, op):
+    import cooler
+
+    fid, path = op["file"], op["path"]
+    if fid not in self.fs.files:
+        raise Skip("no file")
+    node = self.fs.lookup(fid, path)
+    if node is None or not isinstance(node.coll, Coll):
+        raise Skip("no collection")
+    if self.fs.canonical(fid, path) is None:
+        raise Skip("renaming through an external link is not generated")
+    rmap = {k: v for k, v in op["map"].items()}
+    old = list(node.coll.chromnames)
+    new = [rmap.get(n, n) for n in old]
+    if len(set(new)) != len(new):
+        raise Skip("renaming would create duplicate names")
+    uri = uri_of(path, self.fpath(fid), op.get("slash", True))
+    key = (fid, path)
+    held = self.live.get(key)
+    if op.get("held") and held is not None and held[1] == node.id:
+        clr = held[0]
+        self.stat("rename-via-held-object")
+    else:
+        clr = cooler.Cooler(uri)
+    # what the old names returned, for "regions addressed by a new name return what the old name returned"
+    before = {}
+    with warnings.catch_warnings():
+        warnings.simplefilter("ignore")
+        fresh0 = cooler.Cooler(uri)
+        for n in old:
+            try:
+                before[n] = (fresh0.extent(n), fresh0.matrix(balance=False).fetch(n).tolist()
+                             if "count" in node.coll.pixels else None)
+            except Exception as e:
+                before[n] = ("raised", str(e))
+    fs_new = self.fs.clone()
+    n2 = fs_new.lookup(fid, path)
+    n2.coll.chromnames = new
+    n2.prop = "C18"
+    n2.verified = False
+    self.live[key] = (clr, n2.id, n2.coll)
+    self._arm_open_fault(None)
+    self._arm_snapshots(None)
+    exc, tracer = self._call(lambda: cooler.rename_chroms(clr, rmap), None)
+    if exc is not None:
+        self.violate("C18", "op-raised", ["rename_chroms raised %s: %s" % exc])
+        self._resolve([self.fs, fs_new], [fid], None, None, False)
+        return exc, tracer
+    # immediately, on the same object
+    errs = oracles.check_read(uri, n2.coll, "same object: ", deep=False, cooler_obj=clr)
+    with warnings.catch_warnings():
+        warnings.simplefilter("ignore")
+        for o, nn in zip(old, new):
+            for label, c in (("same object", clr), ("reopened", None)):
+                try:
+                    c = c or cooler.Cooler(uri)
+                    got = (c.extent(nn), c.matrix(balance=False).fetch(nn).tolist()
+                           if "count" in node.coll.pixels else None)
+                    if got != before[o]:
+                        errs.append("%s: region %r does not return what %r returned" % (label, nn, o))
+                    if nn != o and o not in new:
+                        try:
+                            c.extent(o)
+                            errs.append("%s: old name %r still resolves" % (label, o))
+                        except Exception:
+                            pass
+                except Exception as e:
+                    errs.append("%s: lookup by new name %r raised %s: %s" % (label, nn, type(e).__name__, str(e)[:80]))
+    if errs:
+        self.violate("C18", "O-rename", errs)
+    else:
+        self.stat("rename-verified")
+    self._resolve([fs_new], [fid], None, None, False)
+    return exc, tracer
+
+
+def _op_hold(self, op):
+    """Create a long-lived Cooler object that a later rename goes through."""
+    import cooler
+
+    fid, path = op["file"], op["path"]
+    if fid not in self.fs.files:
+        raise Skip("no file")
+    node = self.fs.lookup(fid, path)
+    if node is None or not isinstance(node.coll, Coll):
+        raise Skip("no collection")
+    self.live[(fid, path)] = (cooler.Cooler(uri_of(path, self.fpath(fid))), node.id, node.coll)
+    return None, None
+
+
+def _op_intify(self, op):
+    """Rewrite bins/chrom as plain integers + enum_path: the schema's
+    integer-encoded chromosome column (a valid variant)."""
+    fid, path = op["file"], op["path"]
+    if fid not in self.fs.files:
+        raise Skip("no file")
+    node = self.fs.lookup(fid, path)
+    if node is None or not isinstance(node.coll, Coll) or self.fs.canonical(fid, path) is None:
+        raise Skip("no collection")
+    with h5py.File(self.fpath(fid), "r+") as f:
+        g = f[path]["bins"]
+        ids = g["chrom"][:].astype(np.int32)
+        del g["chrom"]
+        d = g.create_dataset("chrom", data=ids, dtype=np.int32)
+        d.attrs["enum_path"] = "/chroms/name"
+    node.coll.chrom_enum = False
+    self.stat("intified")
+    return None, None
+
+
+def _op_restart(self, op):
+    """Drop every cached object, as a new process would start."""
+    self.live.clear()
+    gc.collect()
+    return None, None
+
+
+StoreRun.op_scool = _op_scool
+StoreRun._check_scool = _check_scool
+StoreRun.op_rename = _op_rename
+StoreRun.op_hold = _op_hold
+StoreRun.op_intify = _op_intify
+StoreRun.op_restart = _op_restart
